@@ -605,7 +605,21 @@ func TestC15Faults(t *testing.T) {
 			script = append(ns, script[failingOp+1:]...)
 		}
 		key := [2]int{inv.Reg, inv.N}
-		y, err := replay(cfg, script, func(w *kit.World) { w.Faults[key] = flt })
+		// the clean-up after a failed Build may fail as well (Close methods of what was built so
+		// far return errors): the constructor's failure is still what Build has to report
+		cleanupFails := duringBuild && rapid.IntRange(0, 2).Draw(rt, "cleanupFails") == 0
+		y, err := replay(cfg, script, func(w *kit.World) {
+			w.Faults[key] = flt
+			if cleanupFails {
+				regs := map[int]bool{}
+				for _, r := range w.Cfg.Regs {
+					if r.Form != kit.FormInstance {
+						regs[r.ID] = true
+					}
+				}
+				w.CloseFailRegs = regs
+			}
+		})
 		if err != nil {
 			rt.Fatal(err)
 		}
@@ -629,10 +643,16 @@ func TestC15Faults(t *testing.T) {
 		} else if reg.Form == kit.FormVoid || (failingOp >= 0 && x.Script[failingOp].Kind == "create") {
 			where = "scope-creation"
 		}
+		// a constructor that fails is reported - also when the service it was to produce is
+		// somebody's optional dependency: optional means "zero when nothing is registered"
+		// (C04), not "zero when the registered service cannot be built"
 		optional := reachableViaOptional(x.M, inv.Reg)
 		labels := []string{"fault-during:" + where, fmt.Sprintf("fault-kind:%d", flt.Kind), fmt.Sprintf("depth:%d", min(depth, 3))}
 		if optional {
-			labels = append(labels, "fault-behind-optional(either outcome accepted)")
+			labels = append(labels, "fault-behind-optional")
+		}
+		if cleanupFails {
+			labels = append(labels, "clean-up-after-failed-build-fails-too")
 		}
 		canon := fmt.Sprintf("%s || %s || fault r%d#%d kind %d", cfg, scriptString(script), inv.Reg, inv.N, flt.Kind)
 		col.Case(depth >= 2 || inv.N >= 2, canon, canon, labels...)
@@ -640,10 +660,11 @@ func TestC15Faults(t *testing.T) {
 		var f *Failure
 		classify := func(what string, e error) *Failure {
 			if e == nil {
+				sig := where + "/" + fmt.Sprint(flt.Kind)
 				if optional {
-					return nil
+					sig = "behind-optional/" + sig
 				}
-				return fail("C15", "reported", where+"/"+fmt.Sprint(flt.Kind), "%s succeeded although constructor r%d#%d failed", what, inv.Reg, inv.N)
+				return fail("C15", "reported", sig, "%s succeeded although constructor r%d#%d failed", what, inv.Reg, inv.N)
 			}
 			if cs := classSet(e); len(cs) > 0 {
 				return fail("C15", "distinguishable", where+"/"+strings.Join(cs, "+"), "%s failed because constructor r%d#%d failed, yet the error also classifies as %v: %v", what, inv.Reg, inv.N, cs, firstLine(e))
@@ -883,4 +904,66 @@ func TestC15Classes(t *testing.T) {
 			rt.Fatalf("VIOLATION %s\n%s", f, canon)
 		}
 	})
+}
+
+// ---------- known findings of this property: each listed finding's minimal reproduction ----------
+
+type kfDep struct{ n int }
+type kfSvc struct{ dep *kfDep }
+type kfIn struct {
+	godi.In
+	Dep *kfDep `optional:"true"`
+}
+
+// reproOptionalSwallowsConstructorError: a registered service whose constructor
+// fails, behind an optional parameter-object field. Reports whether the
+// failure is still swallowed (the consumer is handed out with a nil field and
+// no error).
+func reproOptionalSwallowsConstructorError() (bool, string) {
+	boom := errors.New("constructor failed")
+	c := godi.NewCollection()
+	if err := c.AddScoped(func() (*kfDep, error) { return nil, boom }); err != nil {
+		return false, err.Error()
+	}
+	if err := c.AddScoped(func(in kfIn) *kfSvc { return &kfSvc{dep: in.Dep} }); err != nil {
+		return false, err.Error()
+	}
+	p, err := c.Build()
+	if err != nil {
+		return false, err.Error()
+	}
+	defer p.Close()
+	sc, err := p.CreateScope(context.Background())
+	if err != nil {
+		return false, err.Error()
+	}
+	defer sc.Close()
+	v, err := godi.Resolve[*kfSvc](sc)
+	if err == nil && v != nil && v.dep == nil {
+		return true, "AddScoped(func() (*Dep, error) { return nil, boom }); AddScoped(func(in struct{ godi.In; Dep *Dep `optional:\"true\"` }) *Svc): Resolve[*Svc] returns a *Svc with a nil Dep and a nil error - the constructor's error is reported by nobody"
+	}
+	return false, ""
+}
+
+var knownRepros = map[string]func() (bool, string){
+	"optionalSwallowsConstructorError": reproOptionalSwallowsConstructorError,
+}
+
+// TestC15KnownFindings runs the minimal reproduction of every listed finding of
+// C15 and prints a KNOWN-FINDING line for those that still fail. A finding
+// that no longer reproduces prints nothing (and its exclusion then excludes
+// nothing that occurs).
+func TestC15KnownFindings(t *testing.T) {
+	for _, k := range loadKnown() {
+		if k.Property != "C15" {
+			continue
+		}
+		f := knownRepros[k.Repro]
+		if f == nil {
+			t.Fatalf("known finding %q names no reproduction this harness has", k.Repro)
+		}
+		if still, what := f(); still {
+			fmt.Printf("KNOWN-FINDING: property=C15 %s\n", what)
+		}
+	}
 }
